@@ -28,9 +28,12 @@
 (*   Step_C20_LateralInArray          volumes / aggregated balances filtered  *)
 (*                                    by a partial address AND an $in address *)
 (*   Step_C20_AcctBalancePitNoEffective  accounts as of t filtered by balance *)
-(*                                    without effective volumes               *)
+(*                                    without effective volumes (must be      *)
+(*                                    rejected: missing feature)              *)
 (*   Step_C37_ParamsPartialOverride   template run whose request params omit  *)
 (*                                    a field the template sets               *)
+(*   Step_C37_VarExactAmounts         template run with an amount variable     *)
+(*                                    while amounts exceed 2^53 (st.big)       *)
 (*   Step_C37_RunExactAmounts         template run whose response carries an   *)
 (*                                    amount that is not the stored one (not a *)
 (*                                    multiple of the amount scale)            *)
@@ -64,7 +67,7 @@ ToLS(o) == [txs |-> [i \in DOMAIN o.txs |-> ToTx(o.txs[i])],
             accts |-> {ToAcct(a) : a \in ToSet(o.accts)},
             logs |-> [i \in DOMAIN o.logs |-> ToLog(o.logs[i])]]
 
-RS(o) == [ls |-> ToLS(o), jr |-> o.jr, flags |-> o.flags, sg |-> o.sg, pre |-> o.pre, rk |-> o.rk,
+RS(o) == [ls |-> ToLS(o), jr |-> o.jr, flags |-> o.flags, sg |-> o.sg, pre |-> o.pre, rk |-> o.rk, big |-> o.big,
           aupd |-> [a \in {x.addr : x \in ToSet(o.accts)} |-> (CHOOSE x \in ToSet(o.accts) : x.addr = a).upd],
           tupd |-> [id \in {x.id : x \in ToSet(o.txs)} |-> (CHOOSE x \in ToSet(o.txs) : x.id = id).upd]]
 
@@ -139,6 +142,7 @@ Judge(i, si) ==
       selClass ==
         IF out.status = "inexact" THEN "inexact"
         ELSE IF rejected THEN "none"
+        ELSE IF tpl /\ R.big /\ (\E v \in DOMAIN q0.tpl.vars : q0.tpl.vars[v].t = "amount") THEN "tplbignum"
         ELSE IF tpl /\ TplPartial(q0) THEN "tplpartial"
         ELSE IF b = "transactions" /\ q.pit # 0 /\ amh # tmh /\ UsesMeta(q) THEN "txmixed"
         ELSE IF b \in {"accounts", "volumes", "agg"} /\ q.pit # 0 /\ amh /\ UsesMeta(q) /\ AcctDelAfter(R, q.pit) THEN "acctdel"
@@ -223,6 +227,7 @@ ReadChecks(i, si) ==
         <<"Step_C37_Template", j.tpl /\ none /\ mnone, j.content /\ j.meta>>,
         <<"Step_C37_Cursor", j.tpl /\ none, j.pages /\ j.sorted /\ j.prev>>,
         <<"Step_C37_RunExactAmounts", cls("inexact"), FALSE>>,
+        <<"Step_C37_VarExactAmounts", cls("tplbignum"), allOf>>,
         <<"Step_C37_ParamsPartialOverride", cls("tplpartial"), allOf>>,
         <<"Step_C17_TxPitMixedFlags", cls("txmixed"), allOf>>,
         <<"Step_C17_AcctPitAfterDelete", cls("acctdel"), allOf>>,
@@ -265,6 +270,7 @@ Step_C37_Template == StepOK("Step_C37_Template")
 Step_C37_Cursor == StepOK("Step_C37_Cursor")
 Step_C37_ParamsPartialOverride == StepOK("Step_C37_ParamsPartialOverride")
 Step_C37_RunExactAmounts == StepOK("Step_C37_RunExactAmounts")
+Step_C37_VarExactAmounts == StepOK("Step_C37_VarExactAmounts")
 Step_C17_TxPitMixedFlags == StepOK("Step_C17_TxPitMixedFlags")
 Step_C17_AcctPitAfterDelete == StepOK("Step_C17_AcctPitAfterDelete")
 Step_C20_VolumesWindowMetaNoHistory == StepOK("Step_C20_VolumesWindowMetaNoHistory")
